@@ -297,6 +297,11 @@ def rules(ck, P):
                  "the lookup is guarded by %s but the stream is not clipped by it: the stream delivers tiles the lookups do not" % extra_g,
                  ir.loc(G[extra_g[0]]) if extra_g else ir.loc(lk))
     ck.anchor("R-AGREE", "types implementing both lookup and stream", list(range(n_pairs)), 8)
+    # ---------------- R-INDEX-SCAN
+    scans = [P.fn(fq) for fq in E if ir.contains(P.fn(fq)["body"], lambda y: y.get("k") == "mcall" and (y.get("q") or "").endswith("::get_block_tile_index"))]
+    if ck.anchor("R-INDEX-SCAN", "streams that scan a block's tile index", scans, 1):
+        for b in scans:
+            _index_scan_rules(ck, P, b)
     # ---------------- R-CLIP / R-SLOT per implementation
     NARROW = ("intersect_bbox", "intersect_pyramid", "clone", "intersect", "to_owned")
     D4 = ("flip_y", "swap_xy")
@@ -448,4 +453,161 @@ def mutants(P):
             n["es"][0] = {"k": "call", "q": "versatiles_core::types::tile_coords::TileCoord3::new", "t": "versatiles_core::types::tile_coords::TileCoord3", "a": [], "s": n["s"]}
         return m_replace(body, lambda n: n.get("k") == "tup" and len(n.get("es", ())) == 2 and n["es"][0].get("t", "").endswith("TileCoord3"), fn)
     out.append(("default stream: emits a different coordinate", "versatiles_core::types::tiles_reader::TilesReaderTrait::get_bbox_tile_stream", default_other_coord))
+    return out
+
+
+# ------------------------------------------------------------------ index-scan streams (versatiles)
+
+def _index_scan_rules(ck, P, b):
+    """A stream that walks a block's tile index instead of asking per coordinate must (V1) turn an index position back
+    into a coordinate with the SAME box the lookup uses to turn a coordinate into a position (the block's global box),
+    (V2) keep exactly the entries inside argument ∩ block with a non-empty range, (V3) sort by offset before merging
+    ranges into chunks (Chunk::push assumes ascending offsets), (V4) cut each tile out of its chunk at
+    [range.offset - chunk.offset, + range.length) and (V5) grow a chunk to the end of every entry it takes."""
+    from . import affine as A, comp
+    fq = b["q"]
+    key = fq + "|index-scan"
+    lets = comp.lets_of(b)
+    gi = [n for n in ir.walk_nodes(b["body"]) if n.get("k") == "mcall" and (n.get("q") or "").endswith("::get_block_tile_index")]
+    if not ck.check(len(gi) == 1, "R-INDEX-SCAN", key + "|index", "the stream reads one tile index per block", "%d get_block_tile_index calls" % len(gi), ir.loc(b)):
+        return
+    blk_place = comp.deep_place(gi[0]["a"][0], lets)
+    # V1
+    ci = [n for n in ir.walk_nodes(b["body"]) if n.get("k") == "mcall" and n.get("name") in ("get_coord3_by_index", "get_coord2_by_index")]
+    ok1 = len(ci) == 1 and comp.deep_place(ci[0]["recv"], lets) == blk_place + ".get_global_bbox()"
+    look = [x for x in P.bodies if x.get("self_adt") == b.get("self_adt") and x.get("trait_item", "").endswith("TilesReaderTrait::get_tile_data")]
+    lk_ok = False
+    if look:
+        ll = comp.lets_of(look[0])
+        ti = [n for n in ir.walk_nodes(look[0]["body"]) if n.get("k") == "mcall" and n.get("name") in ("get_tile_index2", "get_tile_index3")]
+        lk_ok = len(ti) == 1 and comp.deep_place(ti[0]["recv"], ll).endswith(".get_global_bbox()")
+    ck.check(ok1 and lk_ok, "R-INDEX-SCAN", key + "|position-box", "index position -> coordinate uses the block's global box, the box the lookup uses for coordinate -> position",
+             "index positions are turned into coordinates with `%s`, not with the global box of the block whose index is read (`%s.get_global_bbox()`)" %
+             (comp.deep_place(ci[0]["recv"], lets) if ci else "?", blk_place), ir.loc(ci[0]) if ci else ir.loc(b))
+    if ci:
+        # the position is the enumerate index of the index's own iteration
+        clo = None
+        for n, parents, _ in ir.walk(b["body"]):
+            if n is ci[0]:
+                cl = [p for p in parents if p.get("k") == "closure"]
+                clo = cl[-1] if cl else None
+        ok_idx = False
+        if clo is not None:
+            binds = [x for p in clo["params"] for x in ir.pat_binds(p)]
+            arg = ir.strip(ci[0]["a"][0])
+            while arg is not None and arg.get("k") == "cast":
+                arg = ir.strip(arg["e"])
+            en = [n for n in ir.walk_nodes(b["body"]) if n.get("k") == "mcall" and n.get("name") == "enumerate"]
+            src_ok = False
+            if len(en) == 1 and ir.strip(en[0]["recv"]).get("k") == "mcall" and ir.strip(en[0]["recv"]).get("name") == "iter":
+                ih = ir.local_hid(ir.strip(en[0]["recv"])["recv"])
+                src_ok = ih in lets and ir.contains(lets[ih], lambda y: y is gi[0])
+            ok_idx = bool(binds) and binds[0]["t"] == "usize" and ir.local_hid(arg) == binds[0]["hid"] and src_ok
+        ck.check(ok_idx, "R-INDEX-SCAN", key + "|position", "the position is the enumerate() index over that block's tile index", "the position handed to get_coord3_by_index is not the enumerate index of the tile index", ir.loc(ci[0]))
+    # V2
+    flt = [n for n in ir.walk_nodes(b["body"]) if n.get("k") == "mcall" and n.get("name") == "filter" and n["a"] and n["a"][0].get("k") == "closure"]
+    ok2 = False
+    why2 = "no filter over the index entries"
+    if len(flt) >= 1:
+        f = flt[0]["a"][0]
+        conj = []
+
+        def split(c):
+            c = ir.unparen(c)
+            if c.get("k") == "bin" and c.get("op") == "&&":
+                split(c["l"])
+                split(c["r"])
+            else:
+                conj.append(c)
+        split(f["body"])
+        fb = [x for p in f["params"] for x in ir.pat_binds(p)]
+        cont = [c for c in conj if c.get("k") == "mcall" and c.get("name") == "contains3"]
+        nonempty = [c for c in conj if ir.cmp_norm(c) is not None and ir.cmp_norm(c)[0].endswith(".length") and ir.cmp_norm(c)[1] in (">", "!=") and ir.cmp_norm(c)[2] == "0"]
+        box_ok = False
+        if cont:
+            rh = ir.local_hid(cont[0]["recv"])
+            # the receiver is a clone of the argument that was intersected with the block's global box
+            inter = [n for n in ir.walk_nodes(b["body"]) if n.get("k") == "mcall" and n.get("name") == "intersect_bbox" and ir.local_hid(n["recv"]) == rh]
+            init = lets.get(rh)
+            bp = [x for p in b["params"] for x in ir.pat_binds(p) if x["t"].endswith("TileBBox")]
+            al = ir.Aliases(b)
+            from_arg = init is not None and bp and al.hid(ir.strip(init)["recv"] if ir.strip(init).get("k") == "mcall" else ir.strip(init)) in {al.canon(bp[0]["hid"])} | _clones_of(b, al, bp[0]["hid"])
+            box_ok = len(inter) == 1 and comp.deep_place(inter[0]["a"][0], lets) == blk_place + ".get_global_bbox()" and from_arg
+            coord_ok = bool(fb) and ir.local_hid(cont[0]["a"][0]) == fb[0]["hid"]
+            box_ok = box_ok and coord_ok
+        ok2 = len(conj) == 2 and len(cont) == 1 and len(nonempty) == 1 and box_ok
+        why2 = "filter conjuncts: %s" % [c.get("src") or ir.place_str(c) for c in conj]
+    ck.check(ok2, "R-INDEX-SCAN", key + "|filter", "entries are kept exactly when their coordinate lies in (argument ∩ block box) and their range is non-empty",
+             "the entry filter is not `box.contains3(coord) && range.length > 0` on the argument box intersected with the block's box (%s)" % why2, ir.loc(flt[0]) if flt else ir.loc(b))
+    # V3
+    loops = [n for n in ir.walk_nodes(b["body"]) if n.get("k") == "for" and ir.contains(n["body"], lambda y: y.get("k") == "mcall" and (y.get("q") or "").endswith("Chunk::push"))]
+    ok3 = False
+    if len(loops) == 1:
+        lh = ir.local_hid(loops[0]["iter"])
+        order = {id(n): i for i, n in enumerate(ir.walk_nodes(b["body"]))}
+        srt = [n for n in ir.walk_nodes(b["body"]) if n.get("k") == "mcall" and n.get("name") in ("sort_by_key", "sort_unstable_by_key", "sort_by_cached_key") and ir.local_hid(n["recv"]) == lh
+               and n["a"] and ir.contains(n["a"][0], lambda y: y.get("k") == "field" and y.get("name") == "offset")]
+        ok3 = len(srt) >= 1 and order[id(srt[0])] < order[id(loops[0])]
+    ck.check(ok3, "R-INDEX-SCAN", key + "|sorted", "entries are sorted by offset before they are merged into chunks", "entries are not sorted by offset before chunking (Chunk::push requires ascending offsets; de-duplicated tiles are not in index order)", ir.loc(loops[0]) if loops else ir.loc(b))
+    # V4
+    gr = [n for n in ir.walk_nodes(b["body"]) if n.get("k") == "mcall" and n.get("name") == "get_range" and "Blob" in (n.get("q") or "")]
+    ok4 = False
+    why4 = "no Blob::get_range"
+    if len(gr) == 1:
+        clo = None
+        for n, parents, _ in ir.walk(b["body"]):
+            if n is gr[0]:
+                cl = [p for p in parents if p.get("k") == "closure"]
+                clo = cl[-1] if cl else None
+        if clo is not None:
+            env = A.Env()
+            body = clo["body"]
+            A.run(ir.stmts_of(body) if body.get("k") == "block" else [body], env)
+            rg = ir.strip(gr[0]["a"][0])
+            if rg.get("k") == "path" and rg.get("r") == "local":
+                rg = ir.strip(lets.get(rg["hid"], rg))
+            binds = [x for p in clo["params"] for x in ir.pat_binds(p)]
+            rb = [x for x in binds if x["t"].endswith("ByteRange")]
+            if rg.get("k") == "struct" and rb and len(rg["fields"]) == 2:
+                lo, hi = A.ev(rg["fields"][0]["e"], env), A.ev(rg["fields"][1]["e"], env)
+                R = (rb[0]["hid"], rb[0]["name"])
+                r_off, r_len = A.sym((R, ".offset")), A.sym((R, ".length"))
+                # chunk base: some place ending in .range.offset of the chunk whose bytes were read
+                base = A.sub(r_off, lo)
+                base_s = A.show(base)
+                rd = [n for n in ir.walk_nodes(b["body"]) if n.get("k") == "mcall" and n.get("name") == "read_range" and ir.contains(n, lambda y: y.get("k") == "field" and y.get("name") == "range")]
+                src = comp.deep_place(rd[-1]["a"][0], lets) if rd else "?"
+                ok4 = A.eq(A.sub(hi, lo), r_len) and base_s == src + ".offset" and ir.local_hid(gr[0]["recv"]) is not None
+                why4 = "slice [%s, %s) of the bytes read from %s" % (A.show(lo), A.show(hi), src)
+    ck.check(ok4, "R-INDEX-SCAN", key + "|slice", "a tile is cut out of its chunk at [range.offset - chunk.range.offset, + range.length)",
+             "tile bytes are not cut at [range.offset - chunk.range.offset, + range.length): %s" % why4, ir.loc(gr[0]) if gr else ir.loc(b))
+    # V5
+    push = [x for x in P.bodies if x["q"].startswith(fq + "::") and x["q"].endswith("Chunk::push")]
+    if ck.anchor("R-INDEX-SCAN", "Chunk::push", push, 1):
+        pb = push[0]
+        env = A.Env()
+        asg = [n for n in ir.walk_nodes(pb["body"]) if n.get("k") == "assign" and ir.place_str(n["l"]).endswith("range.length")]
+        ok5 = False
+        if len(asg) == 1:
+            v = A.ev(asg[0]["r"], env)
+            ps = [x for p in pb["params"] for x in ir.pat_binds(p)]
+            sh = [x for x in ps if x["name"] == "self"]
+            en = [x for x in ps if x["name"] != "self"]
+            if sh and en:
+                S, E = (sh[0]["hid"], "self"), (en[0]["hid"], en[0]["name"])
+                cur = A.sym(((S, ".range"), ".length"))
+                want = A.tmax(cur, A.sub(A.add(A.sym(((E, ".1"), ".offset")), A.sym(((E, ".1"), ".length"))), A.sym(((S, ".range"), ".offset"))))
+                ok5 = A.eq(v, want)
+        keep = [n for n in ir.walk_nodes(pb["body"]) if n.get("k") == "mcall" and n.get("name") == "push" and ir.place_str(n["recv"]).endswith("tiles")]
+        ck.check(ok5 and len(keep) == 1, "R-INDEX-SCAN", key + "|chunk-extent", "a chunk keeps every entry and extends to max(length, entry.end - chunk.offset)",
+                 "Chunk::push does not extend the chunk to the end of the entry it takes", ir.loc(pb))
+
+
+def _clones_of(b, al, hid):
+    out = set()
+    for n in ir.walk_nodes(b["body"]):
+        if n.get("k") == "let" and "init" in n and n["pat"].get("k") == "bind":
+            i = ir.strip(n["init"])
+            if i.get("k") == "mcall" and i.get("name") in ("clone", "to_owned") and al.hid(i["recv"]) in ({al.canon(hid)} | out):
+                out.add(n["pat"]["hid"])
     return out
